@@ -55,6 +55,7 @@ var c10Hists = []c10Hist{
 	// origins with odd, malformed or missing header fields (c10Odd): stored, reused or validated, and reused again
 	{"odd-headers-0", c10OddSteps("0")}, {"odd-headers-1", c10OddSteps("1")}, {"odd-headers-2", c10OddSteps("2")}, {"odd-headers-3", c10OddSteps("3")},
 	{"odd-headers-4", c10OddSteps("4")}, {"odd-headers-5", c10OddSteps("5")}, {"odd-headers-6", c10OddSteps("6")}, {"odd-headers-7", c10OddSteps("7")},
+	{"request-without-header-map", []c10Step{{0, "GET", U, nil, "200:max-age=5"}, {10, "GET", U, []string{"\x00nilmap", ""}, "cond304:max-age=5"}, {1, "GET", U, []string{"\x00nilmap", ""}, "200:max-age=5"}}},
 	{"unsafe-error-status", []c10Step{{0, "GET", U, nil, "200:max-age=100"}, {1, "POST", U, nil, "503"}, {1, "DELETE", U, nil, "404"}, {1, "GET", U, nil, "200:max-age=100"}}},
 }
 
@@ -207,6 +208,8 @@ func c10Run(x *mc.X, hist c10Hist, logger string, replay []int, record *[]int) (
 					kind = "get-lenient"
 					if isIndex || hdrEnd < 0 || k < hdrEnd+4 {
 						kind = "get-strict" // cut inside the JSON array / before the end of the header section
+					} else if bytes.Contains(cur[:hdrEnd], []byte("\r\nContent-Length: ")) {
+						kind = "get-strict" // cut inside a body whose length the entry itself announces: recognisably incomplete
 					}
 					return kind, cur[:k]
 				}
@@ -256,7 +259,7 @@ func c10Run(x *mc.X, hist c10Hist, logger string, replay []int, record *[]int) (
 		world.Advance(secs(st.adv))
 		originFault := ""
 		answerFn(w, func(o *world.Origin, c *world.Call) (*http.Response, error) {
-			of := []string{"ok", "transport-error", "503", "no-date", "invalid-date", "body-error@0", "body-error@mid", "nil-header-200"}
+			of := []string{"ok", "transport-error", "503", "no-date", "invalid-date", "body-error@0", "body-error@mid", "nil-header-200", "nil-header-map"}
 			i := decide(fmt.Sprintf("origin call %d", c.Seq), of)
 			if i != 0 {
 				originFault = of[i]
@@ -308,10 +311,16 @@ func c10Run(x *mc.X, hist c10Hist, logger string, replay []int, record *[]int) (
 			if of[i] == "nil-header-200" {
 				resp.Header = http.Header{"X-Tok": resp.Header["X-Tok"]}
 			}
+			if of[i] == "nil-header-map" { // a hand-written upstream RoundTripper may leave the map nil (http.Client copes with that)
+				resp.Header = nil
+			}
 			return resp, nil
 		})
 		nf := len(faults)
 		req := world.Req(st.method, st.url, st.hdr...)
+		if len(st.hdr) > 0 && st.hdr[0] == "\x00nilmap" {
+			req.Header = nil // a hand-built &http.Request{Method, URL}: no header map at all
+		}
 		for k, v := range req.Header {
 			if len(v) == 1 && v[0] == "\x00nil" {
 				req.Header[k] = nil // net/http's documented way to suppress a header: the key is present without values
